@@ -1,4 +1,4 @@
-HOOK_COMMITS = ["72a0815"]
+HOOK_COMMITS = ["72a0815", "c376b82"]
 NOTES = ("Every check rebuilds the harness from /repo's working tree, regenerates the tables, rebuilds the Lean project, "
          "audits the axioms of the property theorems, runs the correspondence channels and evaluates the property predicate on the "
          "implementation. See DESIGN.md.")
@@ -106,13 +106,31 @@ TEXT = {
         "technique": "Lean 4 proof over regenerated tables (decide +kernel instantiation) + execution of all four operations on every node of explored trees",
     },
     "C10": {
-        "level": "Partial. Lean theorems for every byte string: the recovery-mode lexer that the four handlers drive always returns a token, each token is an exact "
-                 "slice of the input consecutive to the previous one, and it advances. The handlers' own bookkeeping (NodePos, NodeEnd, Tokens, the >> split) and the "
-                 "agreement of the two lexer modes are checked on the implementation: every BadNode of every explored tree is compared with the recovery-mode "
-                 "re-lexing of input[NodePos:NodeEnd] and its SQL() is re-lexed.",
+        "level": "Proof (partial). Lean theorems for every byte string and every lexer state satisfying the lexer invariant: the two lexer modes agree on clean text (noPanic_agrees); "
+                 "each of the four recovery handlers terminates and returns exactly the recovery-mode token stream from the restored token up to the first stop token, every token an exact slice of the input, "
+                 "NodePos = start of the first, NodeEnd = end of the last (NodePos when empty), incl. the '>>' split (bad_tokens_exact, split_gt); BadNode.SQL() keeps exactly the input's gaps between tokens (bad_sql_shape). "
+                 "The handler model is tied to parser.go on every run by the HANDLER channel through the hook VerifRecover. Not proved: that input[NodePos:NodeEnd] and SQL() lexed on their own give the same tokens "
+                 "(false at a context-dependent cut: known finding site:BadNode.sliceContext) and that parse functions only pass lexer-produced states; both are evaluated on the implementation for every BadNode of every explored tree.",
         "design_ref": "DESIGN.md §4 C10",
-        "note": "Trusted: lexer model (LEX channel, both modes); handler part by exploration.",
-        "technique": "Lean 4 proof (recovery lexer totality and frame) + predicate on the implementation",
+        "note": "Trusted: lexer model (LEX channel, both modes), handler model (HANDLER channel, 0.28 M requests quick / several million thorough), the hook export_verif.go.",
+        "technique": "Lean 4 proof (lexer-mode agreement, handler loop invariant with fuel sufficiency, SQL() gap lemma) + LEX/HANDLER correspondence channels + predicate on the implementation",
+    },
+    "C07": {
+        "level": "Lean 4 theorems about a function-for-function model of the expression ladder of parser.go (parseExpr .. parseLit, the loops, sign folding, "
+                 "path merging, the look-aheads) on token lists, for the operator language M1 (atoms, parentheses, 4 prefix, 20 binary operators, IS / BETWEEN / IN "
+                 "/ LIKE forms, field access and subscripts): soundness (a successful parse consumed exactly the yield of the returned tree, every ParenExpr being a "
+                 "'(' ')' pair around exactly its operand, and the tree is grouped as the GoogleSQL table, given as data, prescribes: left-associative levels, "
+                 "non-associative comparison family, prefix and postfix levels), completeness (every tree grouped by the table, in the parser's normal form, is "
+                 "what the parser builds from its yield, for all sufficiently large fuel), uniqueness of the grouping, non-associativity of comparisons "
+                 "('a = b = c' is rejected), fuel-independence, and at the token level that SQL() of a parser-built tree adds no parenthesis and needs none. "
+                 "The model is tied to memefish.ParseExpr by the EXPR channel (AST shape and SQL() text on all trees with up to 3 / 4 operator occurrences printed "
+                 "minimally and fully parenthesised, token soups, mutations, sign/path cases); the predicate re-checks grouping, ParenExpr extents and the SQL() "
+                 "re-lexing on the Go code with its own table-driven printer.",
+        "design_ref": "DESIGN.md §4 C07",
+        "note": "Trusted: Lean kernel + standard axioms; the model MF/Model/Expr.lean (validated by the EXPR channel on explored inputs only) and the table in "
+                "MF/Spec/Precedence.lean. Partial: print_minimal is proved on tokens; the bytes-to-tokens step of the printer is checked at run time (rt flag, predicate).",
+        "technique": "Lean 4 proof (soundness by induction on fuel over all 28 mutually recursive functions; completeness in eventual form by structural induction "
+                     "on the tree with continuation-passing statements for the loop levels) + model/implementation correspondence + table-driven predicate",
     },
     "C01": {
         "level": "Exploration: for every error-free parse of the corpus, probes, mutations and expression soups, SQL() re-parses with the same entry point to a tree equal up to position values and is a fixed point. Two recorded known findings (join method, empty PRIMARY KEY) are recognised by call site.",
@@ -157,10 +175,10 @@ TEXT = {
         "technique": "property predicate evaluated on the implementation (corpus, probes, token-level mutations, expression soups); Lean obligations pending",
     },
     "C16": {
-        "level": "Exploration: each accepted input is re-spelled from its token stream (new trivia, random keyword and identifier case) and must parse to the same tree. The lexer-side trivia lemma is pending.",
+        "level": "Proof (partial). Lexer half proved in Lean for every input: if x lexes to ts and x' re-spells ts (arbitrary new whitespace/comments subject to the two separation side conditions, any case for keywords and unquoted identifiers) then x' lexes to tokens with the same kinds, bases and decoded values (MF.Props.C16.trivia_lemma). Parser half — the tree depends on the tokens only through those fields — is explored on the real entry points: each accepted input is re-spelled and must parse to the same tree.",
         "design_ref": "DESIGN.md §4 C16",
-        "note": "No Lean theorem is claimed for this property yet; the claimed level is exploration of the real entry points. Known findings are listed in known-findings.txt.",
-        "technique": "property predicate evaluated on the implementation (corpus, probes, token-level mutations, expression soups); Lean obligations pending",
+        "note": "The theorem is about the Lean lexer model, tied to lexer.go by the LEX channel on every run. The parser half is exploration. Known findings are listed in known-findings.txt.",
+        "technique": "Lean 4 theorem over the lexer model (simulation of nextToken under re-spelling) + LEX/TREE correspondence channels + property predicate evaluated on the implementation",
     },
     "C18": {
         "level": "Exploration: repeated, reordered and 16-way concurrent calls give identical trees, SQL and error texts; returned trees are not mutated by later parses. Ownership facts from the translator and the -race build are pending.",
